@@ -46,14 +46,24 @@ fn to_emmyrc_json(config: &FlattenConfigObject) -> Value {
         let mut current = &mut emmyrc;
         for i in 0..keys.len() {
             let key = keys[i];
+            // `current` is always an object here: a key that is both a value and a prefix of
+            // other keys (`"a": 1` together with `"a.b": 2`) keeps the nested form, whichever
+            // of the two is visited first.
             if i == keys.len() - 1 {
-                current[key] = v.clone();
+                let map = current.as_object_mut().expect("always an object");
+                if !map.get(key).is_some_and(|old| old.is_object()) {
+                    map.insert(key.to_string(), v.clone());
+                }
             } else {
-                current = current
+                let slot = current
                     .as_object_mut()
                     .expect("always an object")
                     .entry(key.to_string())
                     .or_insert(Value::Object(Default::default()));
+                if !slot.is_object() {
+                    *slot = Value::Object(Default::default());
+                }
+                current = slot;
             }
         }
     }
